@@ -429,7 +429,7 @@ def make_textpath_models():
         (rx(r"^Path::join::<.*>$"), m_join),
         (rx(r"^<%s as Iterator>::collect::<PathBuf>$" % C), m_collect_pathbuf),
         (rx(r"^<(?:std::slice::)?Iter<'_, Component<'_>> as Iterator>::collect::<PathBuf>$"), m_collect_pathbuf),
-        (rx(r"^<(Map|Filter|SkipWhile|TakeWhile)<.*> as Iterator>::collect::<PathBuf>$"), m_collect_pathbuf),
+        (rx(r"^<(?:std::iter::)?(Map|Filter|SkipWhile|TakeWhile|Take|Skip|Chain)<.*> as Iterator>::collect::<PathBuf>$"), m_collect_pathbuf),
         (rx(r"^<&Component<'_> as PartialEq>::eq$"), m_comp_eq),
         (rx(r"^<(&Path|Path|PathBuf|&PathBuf) as PartialEq(<.*>)?>::eq$"), m_path_eq),
         (rx(r"^<(&Path|Path|PathBuf|&PathBuf) as PartialEq(<.*>)?>::ne$"), m_path_ne),
